@@ -20,8 +20,8 @@ ASSUMPTIONS = [
     "fingerprint = alternatives (ordered), distanceToTerminal, recursive_prods, all_nodes, terminals, non_terminals, abstract_dist_to_t, get_weights(), every class's __gengy__",
 ]
 PLAN = {
-    "quick": {"shards": 8, "shard_timeout": 400, "case_timeout": 25, "grammars": 60, "max_case_timeouts": 3},
-    "thorough": {"shards": 16, "shard_timeout": 1500, "case_timeout": 40, "grammars": 800, "max_case_timeouts": 20},
+    "quick": {"shards": 8, "shard_timeout": 400, "case_timeout": 25, "grammars": 160, "max_case_timeouts": 6},
+    "thorough": {"shards": 16, "shard_timeout": 3600, "case_timeout": 40, "grammars": 6000, "max_case_timeouts": 80},
 }
 THRESHOLDS = {
     "quick": {"api_calls_fingerprinted": 5000, "backtracking_events": 500, "failing_operations": 100, "infeasible_limit_probes": 50, "searches": 30, "repr:tree": 500, "repr:ge": 200, "repr:sge": 200, "repr:dsge": 200, "repr:stack": 50},
